@@ -84,6 +84,14 @@ CLAIMS = {
         "internal verdict unchanged outside hashed/signed content.",
    note="Families: signature, aggregation response PDU v2 (response / error / config payloads), extension response PDU v2; v1 PDUs and the publications file are not in the table yet. 1.9e3 mutated objects + insertions at every position of 3/25 signatures. Defects F-C10-1 and F-C12-2 fixed.",
    technique="TLC-evaluated declarative schema over TLC-enumerated mutations, replayed into the typed parsers of libksi"),
+ "C17": dict(level="model_checking", design_ref="DESIGN.md 4/C17",
+   text="PubString.tla defines CRC-32 bit by bit (16-bit limbs), base-32 packing/unpacking with '=' padding and dash grouping, ToString and FromString; for every "
+        "sampled valid string TLC proves -- by computing the CRC of each variant -- that all 31 x length single-symbol substitutions and all adjacent "
+        "transpositions of different symbols are rejected unless the decoded bytes are identical, and exports each variant's verdict. libksi must emit the "
+        "same string, decode it to the same data, agree with the spec on every variant (also in lower case), never let a non-alphabet byte (all 255 values at "
+        "three positions) contribute data bits, and agree on base32 / crc32 values.",
+   note="Strings: SHA-256 and SHA-1 (quick), plus SHA-384/SHA-512 and more times (thorough); times from {0,1,2^31,2^32,1.5e9,2^63,2^64-1}. Defect F-C17-1 fixed.",
+   technique="TLC proof by exhaustive CRC computation over all variants of sampled strings + replay of every variant into libksi"),
 }
 for e in ENGINES:
     e["serves_properties"] = sorted(CLAIMS)
